@@ -236,9 +236,28 @@ def _run_single(case, rec: Recorder):
         elif r < 0.93:
             k = int(rng.integers(1, len(model) + 1))
             ret_idx = bool(rng.random() < 0.5)
-            ops.append(["sample", k, ret_idx])
-            batch = buf.sample(k, return_idx=ret_idx)
+            # three ways the library itself samples a buffer: directly, through Sampler(memory=...) (every training loop)
+            # and through Sampler(dataset=ReplayDataset, dataloader=DataLoader) (the accelerated loops)
+            route = ("direct", "sampler", "distributed")[int(rng.integers(3))]
+            if route == "distributed":
+                ret_idx = False
+            ops.append(["sample", k, ret_idx, route])
+            if route == "direct":
+                batch = buf.sample(k, return_idx=ret_idx)
+            elif route == "sampler":
+                from agilerl.components.sampler import Sampler
+
+                batch = Sampler(memory=buf).sample(k, return_idx=ret_idx)
+            else:
+                from torch.utils.data import DataLoader
+
+                from agilerl.components.data import ReplayDataset
+                from agilerl.components.sampler import Sampler
+
+                ds = ReplayDataset(buf, batch_size=max(1, k // 2))  # the sampler has to set the requested size itself
+                batch = Sampler(dataset=ds, dataloader=DataLoader(ds, batch_size=None)).sample(k)
             rec.hit("sample_checks")
+            rec.hit("sample_route:" + route)
             sampled = True
             if batch.shape[0] != k:
                 rec.violate("sample", "wrong_batch_size", "ReplayBuffer.sample", got=int(batch.shape[0]), want=k)
@@ -453,9 +472,16 @@ def _run_multi(case, rec: Recorder):
                     _restore(args, build(ids, vect))
         elif r < 0.93:
             k = int(rng.integers(1, len(model) + 1))
-            ops.append(["sample", k])
-            batch = buf.sample(k)
+            route = ("direct", "sampler")[int(rng.integers(2))]
+            ops.append(["sample", k, route])
+            if route == "direct":
+                batch = buf.sample(k)
+            else:
+                from agilerl.components.sampler import Sampler
+
+                batch = Sampler(memory=buf).sample(k)
             rec.hit("sample_checks")
+            rec.hit("sample_route:" + route)
             sampled = True
             ids = decode(batch, k, "MultiAgentReplayBuffer.sample")
             if any(i not in model for i in ids):
